@@ -135,39 +135,9 @@ def check(rec, case):
 
 
 def atheris_campaign(rec, ctx, runs, max_len):
-    td = tempfile.mkdtemp(prefix="vf-c03-fuzz-", dir=os.environ.get("VERIF_WORKER_TMP"))
-    kind = "empty" if ctx.k % 2 == 0 else "seeded"
-    try:
-        p = subprocess.run(
-            [sys.executable, "-m", "vf.fuzz", "C03", td, str(ctx.hseed("atheris") % 2_000_000_000), str(runs), str(max_len), kind],
-            stdout=subprocess.DEVNULL,
-            stderr=subprocess.PIPE,
-            text=True,
-            timeout=3600 * 3,
-        )
-    except subprocess.TimeoutExpired:
-        rec.inconclusive["atheris-campaign-timeout"] += 1
-        return
-    path = os.path.join(td, "rec.json")
-    if not os.path.exists(path):
-        rec.notes["atheris"] = f"unavailable: {p.stderr[-300:]}"
-        return
-    with open(path) as f:
-        d = json.load(f)
-    rec.evaluations += d["evaluations"]
-    rec.nontrivial.update(d["nontrivial"])
-    rec.samples.extend(d["samples"][:2])
-    rec.hist.update(d["hist"])
-    rec.inconclusive.update(d["inconclusive"])
-    for fid, v in d["known_hits"].items():
-        slot = rec.known_hits.setdefault(fid, {"count": 0, "example": v["example"], "signature": v["signature"]})
-        slot["count"] += v["count"]
-    for slot in d["failures"]:
-        cur = rec.failures.get(slot["signature"])
-        if cur is None or slot["size"] < cur["size"]:
-            rec.failures[slot["signature"]] = slot
-    rec.notes["atheris"] = "ran"
-    rec.hist[f"atheris-corpus:{kind}"] += d["evaluations"]
+    from ..fuzz import campaign
+
+    campaign(rec, ctx, "C03", runs, max_len)
 
 
 def search(rec, ctx):
